@@ -23,6 +23,8 @@
 //                     (0: no copy). A copy keeps the configured order.
 //   big t n seed      an Array<T> of n <= 2^20 elements derived from the seed (part "bigwrite": written with one << to a TCP socket
 //                     with small buffers and a send timeout against a slow reader, so that the one write() needs many short send()s)
+//   sk                the READER skips the next value / array / string instead of reading it (StreamBufferReader::skip, File::seek from
+//                     the current position, Socket::skip) and goes on with the following items, which must come out right
 //   ra k              write AGAIN the same Array object that the (k mod n)-th of the n earlier "a" ops created (in the order
 //                     now in force); the source objects live for the whole case and are shared by the three sinks, and after
 //                     every << the source (Array / String / ByteArray / C string) must still equal the model
@@ -165,6 +167,7 @@ struct Item {
 	int order;         // order in force
 	int src = -1;      // arrays: index of the source object (several items may write the same object)
 	bool again = false;
+	bool skip = false;  // the reader skips this item's bytes
 };
 
 struct Plan {
@@ -204,10 +207,15 @@ static Plan decode(const vf::Case& c)
 		p.init = order = 2;
 	p.sessStart.push_back(0);
 	p.sessDir.push_back(0);
+	bool skipnext = false;
 	for (size_t i = 0; i < c.ops.size(); i++) {
 		const vf::Op& o = c.ops[i];
 		Item it;
 		it.opno = (int)i;
+		if (o.name == "sk") {
+			skipnext = true;
+			continue;
+		}
 		if (o.name == "init") {
 			if (i == 0) {
 				if (!untouched)
@@ -285,6 +293,10 @@ static Plan decode(const vf::Case& c)
 		else
 			continue;
 		it.order = order;
+		if (it.kind != 0) {
+			it.skip = skipnext;
+			skipnext = false;
+		}
 		if (it.kind == 2 && !it.again) {
 			it.src = (int)p.srcItem.size();
 			p.srcItem.push_back((int)p.items.size());
@@ -445,6 +457,7 @@ struct BufIn {
 		int n = get<int>();
 		return n >= 0 && n <= r.length() ? bytes(n) : std::string("<bad length ") + std::to_string(n) + ">";
 	}
+	void skipn(int n) { r.skip(n); }
 	void feed(const std::string&) {}
 };
 
@@ -480,6 +493,7 @@ struct FileIn {
 		f >> x;
 		return std::string(*x, (size_t)x.length());
 	}
+	void skipn(int n) { f.seek(n, File::HERE); }
 	void feed(const std::string&) {}
 };
 
@@ -521,6 +535,7 @@ struct SockIn {
 		s >> x;
 		return std::string(*x, (size_t)x.length());
 	}
+	void skipn(int n) { s.skip(n); }
 	// the peer sends the reference bytes of the next item just before it is read
 	void feed(const std::string& b)
 	{
@@ -542,6 +557,10 @@ static void read_back(R& r, const Plan& p, const char* sink, size_t from = 0, si
 		r.feed(it.bytes);
 		if (it.kind == 0)
 			r.setEndian((Endian)it.t);
+		else if (it.skip) {
+			if (!it.bytes.empty()) // (Socket::skip(0) is a zero-byte read, which the unchanged library records as a receive error)
+				r.skipn((int)it.bytes.size());
+		}
 		else if (it.kind == 1 || it.kind == 2)
 			with_type(it.t, [&](auto tag) {
 				typedef typename decltype(tag)::type T;
@@ -1104,6 +1123,22 @@ static Gen<vf::Op> opgen()
 			o.name = "ra";
 			o.a = {*vf::irange<int>(0, 63)};
 		}
+		else if (w < 27 && w >= 25) {
+			// a block of 1023..5000 bytes for the reader to skip or read (a String / ByteArray goes out in one write() in every byte order;
+			// an element-wise written array of that many elements would fill the socketpair before the harness drains it)
+			o.name = "s";
+			int k = *vf::irange<int>(1, 2);
+			int n = *gen::elementOf(std::vector<int>{1023, 1024, 1025, 1500, 2048, 4095, 4096, 4097, 5000});
+			ref::Mix g((uint64_t)*vf::irange<long long>(0, 1000000000LL));
+			std::string str((size_t)n, '\0');
+			for (auto& ch : str)
+				ch = (char)g.below(256);
+			o.a = {k};
+			o.s = {str};
+		}
+		else if (w < 30 && w >= 27) {
+			o.name = "sk";
+		}
 		else if (w < 25) {
 			o.name = "ls";
 			int n = *gen::oneOf(vf::irange<int>(0, 20), gen::elementOf(std::vector<int>{0, 1, 5, 127, 128, 129, 255, 256, 300}));
@@ -1330,6 +1365,15 @@ static void classify(const vf::Case& c)
 		}
 		if (it.kind == 1)
 			st.cls(std::string("scalar.") + TYPE_NAME[it.t]);
+		if (it.skip && it.kind != 0) {
+			st.cls("reader.skip");
+			if (it.bytes.size() > 1024)
+				st.cls("reader.skip>1024_bytes");
+			if (it.bytes.size() >= 1023 && it.bytes.size() <= 1025)
+				st.cls("reader.skip_1023..1025_bytes");
+			if (it.bytes.size() >= 4095 && it.bytes.size() <= 4097)
+				st.cls("reader.skip_4095..4097_bytes");
+		}
 		if (it.kind == 5)
 			st.cls(std::string("string.length_prefixed.") + ORDER_NAME[it.order]);
 		if (it.kind == 3)
